@@ -5,6 +5,9 @@ VERIF = os.path.dirname(os.path.dirname(os.path.abspath(__file__)))
 
 # id -> (category, technique, text, note, design_ref)
 CHECKS = {
+    'C13': ('exploration', 'measurement monitoring: the real PLApproximate<Con> output judged by dense sampling + extremum search against long-double libm; guarded hook reports dropped breakpoints',
+            'For all 17 function types, parameters, interval shapes, tolerances and integer/continuous arguments the routine the converter calls is executed and its point list measured: strict monotonicity of breakpoints, first/last breakpoint = reported domain, per-segment maximum error in the property\'s abs/rel metric, the periodic reduction at several period factors, exactness of the integer shortcut; hangs are caught by the watchdog.',
+            'long-double libm is the reference; sampling (49 points + golden section per segment) can miss narrow spikes; violations on segments spanning breakpoints dropped by the 1e-4 spacing rule are a listed known finding (attribution is exact through the MP_VERIF_HOOKS hook)', '2/C13'),
     'C11': ('exploration', 'generator-knows-the-answer monitoring of the real BasicSolver option parser, hostile strings in exact-size heap buffers under ASan',
             'Grammar-derived assignment sequences over int/double/string/flag/wildcard options, inline and out-of-line synonyms in random case, all separator forms, quoted strings and name=? queries are distributed over mp_options, <exe>_options, <solver>_options and argv; the final value of every option, the ParseOptions result and the error-handler calls must equal what the generator assigned in the documented source order; hostile strings must terminate with at most an option error.',
             'the generator\'s bookkeeping is the reference; a recording ErrorHandler is installed so parsing continues after an error', '2/C11'),
